@@ -282,6 +282,10 @@ def run(ctx):
     # ---- B: best-fit r2 -------------------------------------------------------
     _best_fit(rc)
     programs += 2
+    res.rule("D-dtype", "no metric / fit helper puts a real value into an array that inherits the dtype of its argument (np.*_like, .copy(): an integer-typed x or y "
+             "would truncate the fitted values before the metric is taken)")
+    from . import detectors as _d
+    _d.dtype_guard(rc, "D-dtype", ["metrics", "linear_fit"])
     res.extra_coverage.update({"programs": programs, "disagreements_checked": len(res.findings)})
     res.analysed["inlined_functions"] = sorted(rc.ev.inlined)
     res.assumptions += ["real-number reading of the formulas (floating-point rounding is outside the claim)",
